@@ -91,8 +91,18 @@ fn one(args: &[String]) {
     }
 }
 
+/// ground <module> <which>
+fn ground(args: &[String]) {
+    let r = autosar_data_specification::verif_entry::ground(&args[0], &args[1]).or_else(|| autosar_data::verif_entry::ground(&args[0], &args[1]));
+    match r {
+        Some(s) => println!("{}", s),
+        None => { println!("UNKNOWN"); std::process::exit(3) }
+    }
+}
+
 pub fn command(cmd: &str, args: &[String]) {
     match cmd {
+        "ground" => ground(args),
         "find" => finder(args),
         "one" => one(args),
         _ => {
